@@ -55,6 +55,8 @@ def render(doc, f):
             out.append(v + fill(f, "I%d" % i, "U%d" % i))
         elif k == "hr":
             out.append("----")
+        elif k == "e":
+            out.append("")          # an empty line: ends every open list
         else:
             out.append(fill(f, "T%d" % i, "U%d" % i))
     return "\n".join(out) + "\n"
@@ -80,6 +82,8 @@ def ref(doc, f):
             while secs[-1][1] > 2:
                 secs.pop()
             hrs.append(secs[-1][0])
+        elif k == "e":
+            lists = []
         elif k == "t":
             lists = []
             want["T%d" % i] = ("text", secs[-1][0])
@@ -293,13 +297,17 @@ def main(run):
     HT = [("h", lvl + 10 * t) for lvl in (1, 2, 3) for t in (1, 2, 3)] + [("h", 2), ("h", 3), ("l", "*"), ("l", "**"), ("t", None)]
     for a in HT:
         extra.append((HT, a, 3 if q else 4, 1))
+    # empty lines between list lines of different depths (an empty line ends all levels of the list before it)
+    ME = [("l", "*"), ("l", "**"), ("l", "#"), ("l", "*#"), ("l", "***"), ("e", None), ("t", None)]
+    for a in ME:
+        extra.append((ME, a, 4 if q else 5, 2))
     for cid, acc, hung in run_chunks(work_extra, extra, nproc=run.nproc, case_timeout=30):
         run.acc.merge(acc)
     cov = {
         "distinct_nontrivial": len(run.acc.sets.get("skeletons", ())),
         "rule": "every document of <= %d lines, each line one of %d kinds (6 heading levels, %d list markers over {*,#} of depth <= 4, "
                 "----, filler line) x every one of %d balanced fillers (used for filler lines and item texts); plus heading-only "
-                "sequences to length %d and marker-only sequences (depth <= 2) to length %d; documents of <= 3 (thorough 4) lines over headings followed on their line by a blank / tab / comment, plain headings, items and text. Non-trivial/distinct = distinct "
+                "sequences to length %d and marker-only sequences (depth <= 2) to length %d; documents of <= 3 (thorough 4) lines over headings followed on their line by a blank / tab / comment, plain headings, items and text; documents of <= 4 (thorough 5) lines over five list markers, the empty line and a text line. Non-trivial/distinct = distinct "
                 "extracted skeletons with >= 2 tagged nodes." % (maxlen, len(LINES), len(MARKS), len(FILLERS), 5 if q else 6, 4 if q else 6),
         "exhaustive": True,
     }
